@@ -1,6 +1,7 @@
 SPECIFICATION SSpec
 CONSTANTS
   M = 150
+  HugeFix = TRUE
   MaxPh = 0
   Alphabet = {}
   Cases <- TwoColliding
